@@ -160,7 +160,7 @@ Proof.
   - destruct H as [H1 [H2 H3]]. rewrite (exact_data_eq _ _ Ea Eb H2), H1, H3. reflexivity.
 Qed.
 
-(* the individual parameters the property text names *)
+(* the individual arguments the property text names *)
 Lemma force_change_reaches_complete ti v rest f ti' v' f' :
   forward (CTaskIsComplete ti (data_of v rest) f) = PComplete ti' v' f' -> f' = f /\ v' = v /\ ti' = ti_in ti.
 Proof. rewrite forward_is_complete. intros H. inversion H. repeat split. Qed.
@@ -355,6 +355,14 @@ Proof.
   split; [exact (backward_provide_spec id key v)|].
   split; [exact (backward_lookup_spec key) | exact (backward_cycle_spec keys)].
 Qed.
+
+(* the names used by the task description *)
+Lemma bytes_preserved b rest : copy_n (data_of b rest) = b.
+Proof. exact (copy_n_data_of b rest). Qed.
+Lemma forward_faithful :
+  (forall a b, forward a = forward b <-> same_call a b) /\
+  (forall a b, exact_call a -> exact_call b -> forward a = forward b -> a = b).
+Proof. split; [exact forward_injective_iff | exact forward_injective_exact]. Qed.
 
 (* ------------------------------------------------------------------ non-vacuity *)
 
